@@ -18,6 +18,8 @@ pub struct Cfg {
     pub with_router: bool,
     /// hostile node list served by contact 0 inside its (accepted) answers: 0 none, 1 own id + router + duplicates, 2 fifty names
     pub hostile_list: u8,
+    /// the router's address is also passed to add_node
+    pub router_also_node: bool,
     pub rng_seed: u64,
 }
 
@@ -112,7 +114,7 @@ pub fn build(cfg: &Cfg) -> (Scenario, Vec<Box<dyn Peer>>) {
         id: Some(InfoHash::from(n_id())),
         read_only: cfg.read_only,
         announce_port: None,
-        contacts: (0..cfg.contacts).map(c_addr).collect(),
+        contacts: (0..cfg.contacts).map(c_addr).chain(if cfg.router_also_node && cfg.with_router { vec![router_addr()] } else { vec![] }).collect(),
         routers: if cfg.with_router { vec![router_addr().to_string()] } else { vec![] },
         start_ms: 0,
     });
@@ -273,10 +275,10 @@ fn judge_absolute(cfg: &Cfg, res: &RunResult) -> Vec<(String, String)> {
 }
 
 fn cfg_json(c: &Cfg) -> Value {
-    json!({"read_only":c.read_only,"contacts":c.contacts,"with_router":c.with_router,"hostile_list":c.hostile_list,"rng_seed":c.rng_seed})
+    json!({"read_only":c.read_only,"contacts":c.contacts,"with_router":c.with_router,"hostile_list":c.hostile_list,"router_also_node":c.router_also_node,"rng_seed":c.rng_seed})
 }
 fn cfg_parse(v: &Value) -> Cfg {
-    Cfg { read_only: v["read_only"].as_bool().unwrap_or(true), contacts: v["contacts"].as_u64().unwrap_or(3) as usize, with_router: v["with_router"].as_bool().unwrap_or(false), hostile_list: v["hostile_list"].as_u64().unwrap_or(0) as u8, rng_seed: v["rng_seed"].as_u64().unwrap_or(1) }
+    Cfg { read_only: v["read_only"].as_bool().unwrap_or(true), contacts: v["contacts"].as_u64().unwrap_or(3) as usize, with_router: v["with_router"].as_bool().unwrap_or(false), hostile_list: v["hostile_list"].as_u64().unwrap_or(0) as u8, router_also_node: v["router_also_node"].as_bool().unwrap_or(false), rng_seed: v["rng_seed"].as_u64().unwrap_or(1) }
 }
 
 fn run_with(cfg: &Cfg, prefix: &[usize]) -> (RunResult, bool) {
@@ -341,7 +343,10 @@ pub fn run(tier: Tier) -> Report {
                 if tier == Tier::Quick && hostile_list == 2 && !read_only {
                     continue;
                 }
-                cfgs.push(Cfg { read_only, contacts, with_router, hostile_list, rng_seed: seed });
+                cfgs.push(Cfg { read_only, contacts, with_router, hostile_list, router_also_node: false, rng_seed: seed });
+                if with_router && hostile_list == 0 {
+                    cfgs.push(Cfg { read_only, contacts, with_router, hostile_list, router_also_node: true, rng_seed: seed });
+                }
             }
         }
     }
